@@ -328,6 +328,32 @@ def _gen_plan(family, rng, pool, tier):
                  'filter': None}
         return {'knobs': knobs, 'items': items, 'seps': seps}
 
+    if family == 'c12-enum':
+        # fault enumeration proper: for one sampled message A next to an intact message B, EVERY fault of
+        # the named kinds at EVERY position (each descriptor position x {undefined element, undefined
+        # sequence}; each section x each length delta; stop-signature variants), one scan per fault
+        tiny = lambda e: small(e) and e['adm']['full']['n'] <= 1500 and 'B' not in e['cls']
+        a, b = _pick(rng, pool, 2, tiny)
+        raw = bytes.fromhex(a['hex'])
+        w = bufrgen.walk(raw)
+        faults = [{'kind': 'stopsig', 'bytes': x} for x in ('37373738', '00000000', '37373700')]
+        uel, useq = bufrgen.undefined_element_ids(), bufrgen.undefined_sequence_ids()
+        for p in range(len(w['ids'])):
+            faults.append({'kind': 'undef', 'pos': p, 'id': rng.choice(uel), 'sub': 'undef_el'})
+            faults.append({'kind': 'undef', 'pos': p, 'id': rng.choice(useq), 'sub': 'undef_seq'})
+        for sec in sorted(w['sections']):
+            l = w['sections'][sec][1]
+            for k in sorted(set([1, 2, 3, 4, 8, max(1, l // 2)])):
+                if l - k >= 0:
+                    faults.append({'kind': 'len', 'section': sec, 'delta': -k})
+                faults.append({'kind': 'len', 'section': sec, 'delta': k})
+        faults = [f for f in faults if bufrgen.apply_fault(raw, f) != raw and
+                  bufrgen.apply_fault(raw, f).find(b'BUFR', 1) < 0]
+        return {'knobs': {'mode': rng.choice(['full', 'full', 'info']), 'coe': rng.random() < 0.85, 'front': 'api',
+                          'compiled': None, 'filter': None, 'order': rng.choice(['AB', 'AB', 'BA', 'BAB'])},
+                'items': [_item(a), _item(b)], 'faults': faults,
+                'seps': [gen_separator(rng)[1].hex() if rng.random() < 0.4 else '' for _ in range(4)]}
+
     if family == 'c12-trunc':
         lim = 1000 if tier == 'quick' else 6000
         e = rng.choice([x for x in pool if no_defs(x)])
@@ -487,6 +513,14 @@ def execute(plan):
     fam = plan['family']
     if fam in ('c11', 'c12', 'c17-stream'):
         return exec_stream(plan)
+    if fam == 'c12-enum':
+        out = []
+        for sub in enum_subplans(plan):
+            if sub is None:
+                out.append(None)
+            else:
+                out.append(core.run_in_child(exec_stream, sub, 60))     # one pristine process per fault
+        return {'subs': out}
     if fam == 'c12-trunc':
         return exec_trunc(plan)
     if fam == 'c12-tail':
@@ -499,6 +533,24 @@ def execute(plan):
 
 
 core.register('streamsim', execute)
+
+
+def enum_subplans(plan):
+    """the c12 stream plans a c12-enum plan stands for (None where the guards reject the layout)"""
+    a, b = plan['items']
+    order = plan['knobs'].get('order', 'AB')
+    out = []
+    for f in plan['faults']:
+        items = []
+        for ch in order:
+            it = dict(a if ch == 'A' else b)
+            it['fault'] = f if ch == 'A' else None
+            items.append(it)
+        sub = {'engine': 'streamsim', 'family': 'c12', 'seed': plan.get('seed', 0),
+               'knobs': dict((k, v) for k, v in plan['knobs'].items() if k != 'order'),
+               'items': items, 'seps': plan['seps'][:len(items) + 1]}
+        out.append(sub if finalize(sub)['ok'] else None)
+    return out
 
 
 def exec_stream(plan):
@@ -888,6 +940,16 @@ def oracle(plan, tr):
         return oracle_stream(plan, tr, 'C12')
     if fam == 'c17-stream':
         return oracle_stream(plan, tr, 'C17')
+    if fam == 'c12-enum':
+        out = []
+        for sub, st in zip(enum_subplans(plan), tr['subs']):
+            if sub is None or st is None:
+                continue
+            for sig in oracle_stream(sub, st, 'C12'):
+                sig = dict(sig, enum=True)
+                if not any(_sig_eq(sig, o) for o in out):
+                    out.append(sig)
+        return out[:4]
     if fam == 'c12-trunc':
         out = []
         if tr['decoded_cuts']:
@@ -933,6 +995,11 @@ def oracle(plan, tr):
                 break
         return out[:2]
     raise ValueError(fam)
+
+
+def _sig_eq(a, b):
+    ks = ('clause', 'exc_type', 'raise_site')
+    return all(a.get(k) == b.get(k) for k in ks)
 
 
 def _cut_class(plan, cut):
@@ -1063,6 +1130,8 @@ def shape(plan, tr=None):
                     for it, s in zip(plan['items'], seps))
         return (fam, per, kn.get('mode'), kn.get('coe'), kn.get('front'), kn.get('compiled'),
                 (kn.get('filter') or {}).get('idx'))
+    if fam == 'c12-enum':
+        return (fam, plan['items'][0]['ref'], plan['items'][1]['cls'], kn.get('mode'), kn.get('coe'), kn.get('order'))
     if fam == 'c12-trunc':
         return (fam, plan['items'][0]['ref'], kn.get('compiled'))
     if fam == 'c12-tail':
@@ -1121,6 +1190,22 @@ def shrink_candidates(plan):
                 p['knobs'][k] = v
                 if k == 'front' and kn['front'] in ('cli-info-m', 'cli-info-c', 'cli-split'):
                     p['knobs']['mode'] = 'info'
+                yield p
+    elif fam == 'c12-enum':
+        fs = plan['faults']
+        if len(fs) > 1:
+            for part in (fs[:len(fs) // 2], fs[len(fs) // 2:]):
+                p = _copy(plan)
+                p['faults'] = part
+                yield p
+        if plan['knobs'].get('order') != 'AB':
+            p = _copy(plan)
+            p['knobs']['order'] = 'AB'
+            yield p
+        for i, x in enumerate(plan['seps']):
+            if x:
+                p = _copy(plan)
+                p['seps'][i] = ''
                 yield p
     elif fam == 'c12-trunc':
         cuts = plan['cuts']
